@@ -1,6 +1,6 @@
 //! Workload generator: find expressions as *text*, so that the real lexer and parser are always
 //! on the path. Strings are benign (`[A-Za-z0-9._*?\[\]-]`): escaping of user text is another
-//! property's subject. All numeric constants stay below 10^9 so that no user constant can be
+//! property's subject. Large numeric constants (>= 10^9) come from a short fixed list, so that a user constant can hardly be
 //! mistaken for a simulated clock value.
 
 use crate::rng::Rng;
@@ -61,6 +61,9 @@ pub enum ActionKind {
     FPrintf,
     Quit,
     PrintFid,
+    /// `-ls` / `-fls FILE`: refused by the pinned compiler (probe for a future implementation)
+    Ls,
+    FLs,
 }
 
 pub const ALL_ACTIONS: [ActionKind; 9] = [
@@ -193,7 +196,7 @@ fn perm_arg(rng: &mut Rng) -> String {
 /// Mostly a small number below `small`; now and then a boundary value of the 32-bit argument.
 fn big_or(rng: &mut Rng, small: u64) -> u64 {
     if rng.chance(1, 12) {
-        *rng.pick(&[4294967295u64, 4294967294, 2147483648, 4000000000, 1000000000])
+        *rng.pick(&[4294967295u64, 4294967294, 2147483648, 4000000000, 3999999999])
     } else {
         rng.below(small)
     }
@@ -313,6 +316,8 @@ fn action_text(rng: &mut Rng, cfg: &GenCfg, kind: ActionKind) -> String {
         }
         ActionKind::Quit => "-quit".into(),
         ActionKind::PrintFid => "-print-file-fid".into(),
+        ActionKind::Ls => "-ls".into(),
+        ActionKind::FLs => format!("-fls {file}"),
     }
 }
 
@@ -498,7 +503,25 @@ pub fn expression(rng: &mut Rng, cfg: &GenCfg) -> String {
 /// Degenerate but valid inputs.
 pub const DEGENERATE_SUBJECTS: [&str; 8] = ["", "   ", "-depth", "-threads 3", "-depth -threads 0 -depth", "\n-true\n", "-true", "-print"];
 
-pub const ERROR_SUBJECTS: [&str; 34] = [
+pub const ERROR_SUBJECTS: [&str; 52] = [
+    "-newermt now",
+    "-newermt yesterday -print",
+    "-newerat '2 days ago'",
+    "-newerct today",
+    "-newermt '1 hour ago' -name x",
+    "-newermt @1700000000",
+    "-neweraa ref -print",
+    "-daystart -mmin -60",
+    "-context '*:s0'",
+    "-execdir ls {} +",
+    "-ok rm {} ;",
+    "-okdir rm {} ;",
+    "-lname '*.so'",
+    "-samefile other",
+    "-wholename './src/*'",
+    "-size -1048576c -delete",
+    "-mtime +1 -fls listing.txt",
+    "-follow -name x",
     // GNU find spellings and features the pinned parser rejects (a change that starts accepting
     // one of them must do so deterministically)
     "-perm +222 -print",
